@@ -189,6 +189,33 @@ def generate(res):
 EXPR = "<math><mrow><mn>1,234.5</mn><mo>+</mo><mfrac><mi>A</mi><mn>2</mn></mfrac></mrow></math>"
 
 
+def in_force_oracle(res, float_names):
+    """a number-valued preference that is accepted after outputs were already produced is in force from then on: the next
+    speech is the speech of a session that had the value from the start (their effect is markup, so an engine is selected)"""
+    cap = "<math><mrow><mi>A</mi><mo>+</mo><mfrac><mi>B</mi><mn>2</mn></mfrac><mo>=</mo><mi>C</mi></mrow></math>"
+    vals = {"MathRate": ["80", "150"], "PauseFactor": ["300", "0"], "CapitalLetters_Pitch": ["30"], "Pitch": ["10"], "Rate": ["250"], "Volume": ["80"]}
+    sessions, meta = [], []
+    for name in float_names:
+        for v in vals.get(name, ["50"]):
+            for tts in ("SSML", "SAPI5"):
+                late = [["set_preference", "TTS", tts], ["set_mathml", cap], ["get_spoken_text"], ["get_braille", ""], ["set_preference", name, v], ["set_mathml", cap], ["get_spoken_text"]]
+                early = [["set_preference", "TTS", tts], ["set_preference", name, v], ["set_mathml", cap], ["get_spoken_text"]]
+                sessions += [{"id": len(sessions), "ops": [["set_rules_dir", C.RULES]] + late}, {"id": len(sessions) + 1, "ops": [["set_rules_dir", C.RULES]] + early}]
+                meta.append((name, v, tts, late))
+    out = C.run_harness(sessions)
+    nv = 0
+    for i, (name, v, tts, late) in enumerate(meta):
+        a, b = (out[2 * i].get("res") or [{}])[-1], (out[2 * i + 1].get("res") or [{}])[-1]
+        res.add_case(("in-force", name, v, tts), nontrivial=True)
+        if "ok" in b and a != b:
+            res.violation("preference %s=%s set after the first outputs is not in force: speech %r, a session that had it from the start says %r" % (name, v, str(a)[:120], str(b)[:120]),
+                          {"kind": "history", "history": late, "expected": b, "observed": a, "what": "in force"})
+            nv += 1
+            if nv >= 3:
+                break
+    return nv
+
+
 def property_oracle(res, dump, float_names, obs):
     """direct check of the property on the observed histories + targeted probes (search for a failing input)"""
     nv = 0
@@ -295,10 +322,11 @@ def run(res):
     dump, float_names, obs = generate(res)
 
     def on_broken(log):
-        return property_oracle(res, dump, float_names, obs) > 0
+        return property_oracle(res, dump, float_names, obs) + in_force_oracle(res, float_names) > 0
     proved = C.check_proofs(res, "C12", ["Props/C12.vo", "Tie/C12Tie.vo"], "Props/C12.v", search=on_broken)
     if proved:
         property_oracle(res, dump, float_names, obs)
+        in_force_oracle(res, float_names)
     res.trusted += ["Rust f64 parse/Display (oracle fmt_float, probed on the library for the values used)",
                     "rule-file lookup (oracle can_load, probed on the library); partial updates of file paths when a lookup fails half-way are not modelled"]
     res.assumptions += ["'affects only the outputs it is documented to affect' is not modelled (needs the rule files); exercised only through the rejected-call probes"]
@@ -310,6 +338,10 @@ def replay(path):
     if not ok:
         print("harness build failed", log)
         return 2
+    if rep.get("kind") == "history" and rep.get("what") == "in force":
+        r = C.one_session(rep["history"])["res"][-1]
+        print(r, rep["expected"])
+        return 0 if r == rep["expected"] else 1
     if rep.get("kind") == "history":
         out = run_histories([[tuple(s) for s in rep["history"]]])[0]
         print(json.dumps(out, ensure_ascii=False)[:2000])
